@@ -18,6 +18,10 @@ import (
 
 const (
 	EncodingDeflate = "urn:oasis:names:tc:SAML:2.0:bindings:URL-Encoding:DEFLATE"
+
+	// maxInflatedSize bounds what is read from a DEFLATE stream; it is the limit
+	// net/http itself puts on form bodies, so no legitimate message is larger
+	maxInflatedSize = 10 << 20
 )
 
 func Marshal(data interface{}) ([]byte, error) {
@@ -154,7 +158,14 @@ func InflateAndDecode(encoding string, b64 bool, message string) (_ []byte, err 
 	case EncodingDeflate:
 		r := flate.NewReader(bytes.NewBuffer(data))
 		defer r.Close()
-		return io.ReadAll(r)
+		inflated, err := io.ReadAll(io.LimitReader(r, maxInflatedSize+1))
+		if err != nil {
+			return nil, err
+		}
+		if len(inflated) > maxInflatedSize {
+			return nil, fmt.Errorf("inflated message is larger than %d bytes", maxInflatedSize)
+		}
+		return inflated, nil
 	default:
 		return nil, fmt.Errorf("unknown encoding")
 	}
